@@ -95,7 +95,10 @@ class Operator(Token):
             if pred > stack[-1].pred:
                 break
             builder.append(stack.pop())
-        stack.append(self)
+        if self.name == '%':  # Postfix: its operand is already complete.
+            builder.append(self)
+        else:
+            stack.append(self)
 
     def compile(self):
         from ..functions.operators import OPERATORS
